@@ -19,24 +19,33 @@ What is evaluated on the real code for every input (language, seed, option switc
   erasure work  TypeErasure examines, per function, at most  max_combinations + 1  combinations after the
                 one-per-candidate filtering pass (the budget the statement's anchor names); counted on the real
                 src.analysis.type_dependency_analysis.is_combination_feasible
-  nesting       N(p) <= f(max_depth) = 2*max_depth + 6       (number of expression nodes on a root-to-leaf path)
-                M(p) <= g(max_depth) = max(0, max_depth - 2) (compound expression nodes on a path, see below)
+  nesting       with d = cfg.limits.max_depth, for the generated program p (maxima over the root-to-leaf AST paths):
+                Nc(p) <= h(d) = max(2d+1, d+3)   expression nodes outside the uncharged positions (below)
+                N(p)  <= f(d) = 2*h(d)           all expression nodes
+                M(p)  <= g(d) = max(0, d-2)      compound expression nodes
 
-Derivation of f and g from the generator's depth handling (src/generators/generator.py): the counter `depth` is 1 at
-top level; every declaration generator adds 1 before its body is generated, so the root expression of any body /
-initialiser is generated at counter >= 2; every generator of an expression with sub-expressions adds >= 1 (3 for
-conditionals) before generating them, EXCEPT the receiver of a call / function reference, the elements of an array
-expression and the right-hand side of an assignment, which are generated at the counter of their parent.  Along an
-AST path the counter at which the expression nodes were generated is therefore non-decreasing and strictly increasing
-across every charged edge.  get_generators offers the compound generators (conditional, is, field access, non-void
-call, logical / equality / comparison operator) only while counter < max_depth: the compound nodes on a path (not
-counting a node in an uncharged position, nor a call / assignment in statement position, which is how void
-expressions appear and which are generated regardless of depth) have strictly increasing counters in
-[2, max_depth - 1]: at most max(0, max_depth - 2) of them (g).  Below a compound node the counter is at most
-max_depth + 2; gen_new keeps nesting constructor calls while counter <= 2*max_depth and then emits bottom constants
-for every non-primitive field; a lambda adds one more level.  So every expression node is generated at a counter
-<= max(2*max_depth + 2, max_depth + 4) <= 2*max_depth + 3, a path starts at counter >= 2, hence at most
-2*max_depth + 2 charged levels; f allows 4 more for the uncharged positions listed above.
+Derivation of h, f, g from the generator's depth handling (src/generators/generator.py).  The counter `depth` is 1 at
+top level; every declaration generator adds 1 before its body is generated, so the root expression of any body or
+initialiser is generated at counter >= 2.  Every generator of an expression with sub-expressions adds >= 1 (3 for
+conditionals) before generating them, EXCEPT in the uncharged positions: the receiver of a call / function reference,
+the elements of an array expression, the right-hand side of an assignment (generated at the counter of their parent)
+and the `is` test of a smart-cast conditional with its operand (built in place).  Declarations created on demand are
+hoisted into an enclosing block, which only shortens paths.  So along an AST path the counter at which the
+expression nodes were generated is non-decreasing, and strictly increasing from one charged node to the next.
+ * get_generators offers the compound generators (conditional, is, field access, non-void call, logical / equality /
+   comparison operator) only while counter < d.  The compound nodes on a path - not counting a receiver, nor a call /
+   assignment in statement position, which is how void expressions appear and which are generated regardless of
+   depth - have strictly increasing counters in [2, d-1]: at most max(0, d-2) of them (g).
+ * Below a compound node the counter is at most d+2; gen_new keeps nesting constructor calls while the counter of
+   the arguments is <= 2d and then emits bottom constants for every non-primitive field; a lambda body adds one
+   level.  Every expression node is therefore generated at a counter <= max(2d+2, d+4); a path starts at counter
+   >= 2: at most max(2d+1, d+3) charged nodes (h).
+ * An uncharged node costs nothing, but every charged level can be wrapped in one (class C(val x: Array<C2>) gives
+   New > ArrayExpr > New > ...): f = 2h.  Longer runs of uncharged nodes (arrays of arrays, receivers of receivers)
+   are limited only by the nesting of types, not by the depth counter; they are not covered by f and would be
+   reported.  (A first version of this oracle allowed a constant 4 uncharged nodes per path, f = 2d+6; the input
+   java/seed=102/depth=8 has N = 25 = 12 x (ArrayExpr > New) + bottom with Nc = 14 <= h(8) = 17: the allowance was
+   an error of the oracle, not of the generator, and was corrected to one per level.)
 """
 import hashlib
 import os
@@ -57,8 +66,14 @@ DEFAULT_COMBINATIONS = 500000
 # ---------------------------------------------------------------------------------------------------------------
 # the oracle (no knowledge of the generator's code beyond the public shape of the IR: Node.children(), class names)
 
+def h_charged(max_depth):
+    """charged nesting: the depth counter of the nodes on a path is strictly increasing in [2, max(2d+2, d+4)]"""
+    return max(2 * max_depth + 1, max_depth + 3)
+
+
 def f_nesting(max_depth):
-    return 2 * max_depth + 6
+    """plain nesting: every charged level may be wrapped in one uncharged node"""
+    return 2 * h_charged(max_depth)
 
 
 def g_compound(max_depth):
@@ -81,42 +96,49 @@ COMPOUND = ('Conditional', 'FieldAccess', 'FunctionCall', 'LogicalExpr', 'Equali
 
 
 def measure(M, program):
-    """(N, M, nodes, witness path of N, witness path of M) of a program.
-    N = max number of Expr nodes on a root-to-leaf path of the AST (through declarations, blocks, call arguments);
-    M = max number of compound Expr nodes on such a path, where a node is not counted when it is the receiver of a
-        call / function reference, or a call / assignment that is a direct statement of a block."""
+    """dict(N, Nc, M, nodes, path_N, path_Nc, path_M) of a program, all maxima over the root-to-leaf paths of the AST
+    (through declarations, blocks, call arguments):
+    N  = number of Expr nodes on the path;
+    Nc = number of Expr nodes on the path that are not in an uncharged position (receiver of a call / function
+         reference, element of an array expression, right-hand side of an assignment, the `is` test of a smart-cast
+         conditional and its operand -- the positions the generator fills without advancing its depth counter);
+    M  = number of compound Expr nodes on the path, not counting a receiver of a call / function reference nor a
+         call / assignment that is a direct statement of a block."""
     ast = M.ast
     Node = M.node.Node
-    best = {'N': (0, ()), 'M': (0, ())}
-    count = [0]
+    best = {'N': (0, ()), 'Nc': (0, ()), 'M': (0, ())}
+    count = 0
     # iterative DFS (the measurement itself must not depend on the recursion limit)
-    stack = [(program, None, 0, 0, ())]
-    seen_decl = set()
+    stack = [(program, None, 0, 0, 0, ())]
     while stack:
-        n, parent, cn, cm, path = stack.pop()
-        count[0] += 1
-        is_expr = isinstance(n, ast.Expr)
-        name = type(n).__name__
-        if is_expr:
-            cn += 1
-            path = path + (name,)
-            uncharged = (isinstance(parent, (ast.FunctionCall, ast.FunctionReference))
-                         and getattr(parent, 'receiver', None) is n)
+        n, parent, cn, cc, cm, path = stack.pop()
+        count += 1
+        if isinstance(n, ast.Expr):
+            name = type(n).__name__
+            receiver = (isinstance(parent, (ast.FunctionCall, ast.FunctionReference))
+                        and getattr(parent, 'receiver', None) is n)
+            uncharged = (receiver or isinstance(parent, ast.ArrayExpr)
+                         or (isinstance(parent, ast.Assignment) and parent.expr is n)
+                         or isinstance(n, ast.Is) or isinstance(parent, ast.Is))
             statement = isinstance(parent, ast.Block) and isinstance(n, (ast.FunctionCall, ast.Assignment))
-            if name in COMPOUND and not uncharged and not statement:
+            cn += 1
+            path = path + (name + ('~' if uncharged else ''),)
+            if not uncharged:
+                cc += 1
+            if name in COMPOUND and not receiver and not statement:
                 cm += 1
-            if cn > best['N'][0]:
-                best['N'] = (cn, path)
-            if cm > best['M'][0]:
-                best['M'] = (cm, path)
+            for k, v in (('N', cn), ('Nc', cc), ('M', cm)):
+                if v > best[k][0]:
+                    best[k] = (v, path)
         try:
             ch = list(n.children())
         except NotImplementedError:
             ch = []
         for c in ch:
             if isinstance(c, Node) and type(c).__module__ == ast.__name__:
-                stack.append((c, n, cn, cm, path))
-    return best['N'][0], best['M'][0], count[0], list(best['N'][1]), list(best['M'][1])
+                stack.append((c, n, cn, cc, cm, path))
+    return dict(N=best['N'][0], Nc=best['Nc'][0], M=best['M'][0], nodes=count, path_N=list(best['N'][1]),
+                path_Nc=list(best['Nc'][1]), path_M=list(best['M'][1]))
 
 
 # ---------------------------------------------------------------------------------------------------------------
@@ -267,7 +289,7 @@ def _frame(M, exc):
         fn = os.path.realpath(fr.filename)
         if fn.startswith(M.repo + os.sep):
             inner = (os.path.relpath(fn, M.repo), fr.name, fr.lineno)
-    trail = ['%s:%s:%d' % (os.path.basename(fr.filename), fr.name, fr.lineno) for fr in tb[-4:]]
+    trail = ['%s:%s:%d' % (os.path.basename(fr.filename), fr.name, fr.lineno) for fr in tb[-8:]]
     return inner, trail
 
 
@@ -277,7 +299,7 @@ def run_task(M, t, cpu_alarm=CPU_ALARM):
     configure(M, t)
     lang = t['lang']
     md = t.get('max_depth', DEFAULT_DEPTH)
-    rec = dict(key=task_key(t), stage_done=[], findings=[], N=0, M=0, nodes=0, steps={})
+    rec = dict(key=task_key(t), stage_done=[], findings=[], N=0, Nc=0, M=0, nodes=0, steps={})
     topts = {'timeout': 600 if t.get('timeout') is None else t['timeout']}
     eopts = dict(topts)
     if t.get('max_combinations') is not None:
@@ -313,14 +335,15 @@ def run_task(M, t, cpu_alarm=CPU_ALARM):
         translator = M.translators[lang]('src.' + packages[0], {'cast_numbers': bool(t.get('cast_numbers'))})
         texts = []
         program = stage(STAGES[0], lambda: M.generator.Generator(language=lang, options={}).generate())
-        rec['N'], rec['M'], rec['nodes'], pn, pm = measure(M, program)
-        if rec['N'] > f_nesting(md):
-            rec['findings'].append(('nesting', dict(function='src.generators.generator.Generator.generate',
-                                                    measured=rec['N'], bound=f_nesting(md), path=pn)))
-        if rec['M'] > g_compound(md):
-            rec['findings'].append(('compound-nesting', dict(
-                function='src.generators.generator.Generator.get_generators', measured=rec['M'],
-                bound=g_compound(md), path=pm)))
+        m = measure(M, program)
+        rec.update(N=m['N'], Nc=m['Nc'], M=m['M'], nodes=m['nodes'])
+        for kind, key, bound, fn in (
+                ('nesting', 'N', f_nesting(md), 'src.generators.generator.Generator.generate_expr'),
+                ('charged-nesting', 'Nc', h_charged(md), 'src.generators.generator.Generator.gen_new'),
+                ('compound-nesting', 'M', g_compound(md), 'src.generators.generator.Generator.get_generators')):
+            if m[key] > bound:
+                rec['findings'].append((kind, dict(function=fn, measured=m[key], bound=bound, max_depth=md,
+                                                   path=m['path_' + key])))
         texts.append(stage(STAGES[1], lambda: M.utils.translate_program(translator, program)))
 
         def erase():
@@ -351,7 +374,7 @@ def run_task(M, t, cpu_alarm=CPU_ALARM):
             return to.result()
         program = stage(STAGES[4], overwrite)
         texts.append(stage(STAGES[5], lambda: M.utils.translate_program(translator, program)))
-        rec['N_final'] = measure(M, program)[0]
+        rec['N_final'] = measure(M, program)['N']
         rec['text_sha'] = hashlib.sha256('\x00'.join(texts).encode()).hexdigest()[:16]
     except Budget as b:
         if not any(k == 'erasure-budget' for k, _ in rec['findings']):
@@ -399,20 +422,21 @@ def tasks_for(tier, seed):
         t.update(kw)
         T.append(t)
     quick = tier == 'quick'
-    n_default = 8 if quick else 100
+    all_on = {k: True for k in SWITCHES}
+    # default options
     for lang in LANGS:
-        for s in range(1, n_default + 1):
+        for s in range(1, (8 if quick else 60) + 1):
             add(lang, s)
-    # depth limits
-    depth_seeds = range(101, 102) if quick else range(101, 111)
+    # depth limits (programs at limits 7, 8 cost minutes each: few of them)
     for lang in LANGS:
-        for md in ((1, 2, 3, 4) if quick else (1, 2, 3, 4, 5, 7, 8)):
-            for s in depth_seeds:
+        for md, n in (((1, 1), (2, 1), (3, 1), (4, 1)) if quick else
+                      ((1, 6), (2, 6), (3, 6), (4, 6), (5, 6), (7, 2), (8, 1))):
+            for s in range(101, 101 + n):
                 add(lang, s, max_depth=md)
-    # option switches: quick = each alone + all; thorough = all 16 combinations (+ cast_numbers on the odd ones)
+    # option switches: quick = 3 combinations; thorough = all 15 non-default combinations of the 4 generator switches
+    # (+ cast_numbers on the odd ones)
     if quick:
-        combos = [{SWITCHES[0]: True}, {SWITCHES[2]: True, SWITCHES[3]: True},
-                  dict({k: True for k in SWITCHES}, cast_numbers=True)]
+        combos = [{SWITCHES[0]: True}, {SWITCHES[2]: True, SWITCHES[3]: True}, dict(all_on, cast_numbers=True)]
         sw_seeds = range(201, 202)
     else:
         combos = []
@@ -421,30 +445,29 @@ def tasks_for(tier, seed):
             if bits % 2:
                 c['cast_numbers'] = True
             combos.append(c)
-        sw_seeds = range(201, 205)
+        sw_seeds = range(201, 203)
     for lang in LANGS:
         for c in combos:
             for s in sw_seeds:
                 add(lang, s, **c)
     # transformation options: a small combination budget, an (already expired) visitor timeout
     for lang in LANGS:
-        for s in (range(301, 303) if quick else range(301, 321)):
+        for s in (range(301, 303) if quick else range(301, 311)):
             add(lang, s, max_combinations=1 + s % 2)
-        for s in (range(401, 402) if quick else range(401, 405)):
+        for s in (range(401, 402) if quick else range(401, 403)):
             if not quick or lang in ('java', 'kotlin'):
                 add(lang, s, timeout=0)
-    # switches x depth, thorough only
+    # switches x depth x budget, thorough only
     if not quick:
         for lang in LANGS:
             for md in (2, 4):
-                for s in range(501, 505):
-                    add(lang, s, max_depth=md, max_combinations=1,
-                        **{k: True for k in SWITCHES})
+                for s in range(501, 503):
+                    add(lang, s, max_depth=md, max_combinations=1, **all_on)
     rnd = random.Random(seed)
     for lang in LANGS:
-        for _ in range(1 if quick else 20):
-            add(lang, rnd.randrange(1000, 10 ** 9))
         for _ in range(1 if quick else 10):
+            add(lang, rnd.randrange(1000, 10 ** 9))
+        for _ in range(1 if quick else 5):
             add(lang, rnd.randrange(1000, 10 ** 9), max_depth=rnd.choice([1, 2, 3, 4, 5]),
                 max_combinations=rnd.choice([None, 1, 2, 3]),
                 **{k: True for k in SWITCHES if rnd.random() < 0.5})
@@ -459,69 +482,75 @@ def _worker_init(repo):
 
 
 def _worker(args):
-    t = args
+    i, t = args
     try:
-        return t, run_task(_W['M'], t)
+        return i, t, run_task(_W['M'], t)
     except BaseException as e:   # harness problem, not a verdict
-        return t, dict(key=task_key(t), harness_error=repr(e) + traceback.format_exc()[-600:], findings=[],
-                       stage_done=[], N=0, M=0, nodes=0, cpu_s=0)
+        return i, t, dict(key=task_key(t), harness_error=repr(e) + traceback.format_exc()[-600:], findings=[],
+                          stage_done=[], N=0, Nc=0, M=0, nodes=0, cpu_s=0)
 
 
 def run(tier, seed, stop_first=False, workers=None):
     repo = os.environ.get('HEPH_REPO', '/repo')
+    tier = 'quick' if tier == 'quick' else 'thorough'
     tasks = tasks_for(tier, seed)
     if workers is None:
         workers = int(os.environ.get('VERIF_WORKERS', '0') or 0) or min(8, os.cpu_count() or 1)
     t0 = time.time()
     results = []
+    # scheduling only: the inputs with the largest depth limit are the slowest, start them first
+    order = sorted(enumerate(tasks), key=lambda it: -it[1].get('max_depth', DEFAULT_DEPTH))
     if workers <= 1:
         _worker_init(repo)
-        for t in tasks:
-            results.append(_worker(t))
-            if stop_first and results[-1][1]['findings']:
+        for it in (list(enumerate(tasks)) if stop_first else order):
+            results.append(_worker(it))
+            if stop_first and results[-1][2]['findings']:
                 break
     else:
         import multiprocessing as mp
         ctx = mp.get_context('fork')
         with ctx.Pool(workers, initializer=_worker_init, initargs=(repo,)) as pool:
-            for res in pool.imap(_worker, tasks, chunksize=1):
+            for res in pool.imap_unordered(_worker, order, chunksize=1):
                 results.append(res)
-                if stop_first and res[1]['findings']:
+                if stop_first and res[2]['findings']:
                     pool.terminate()
                     break
+    results.sort(key=lambda r: r[0])      # report in list order: deterministic whatever the scheduling
     violations = []
     kinds = set()
     nontrivial = set()
     samples = []
     harness_errors = []
-    stats = dict(max_N=0, max_M=0, max_nodes=0, max_generate_expr_calls=0, max_erasure_calls=0, erased=0, injected=0,
-                 max_cpu_s=0.0, by_depth={})
-    for t, rec in results:     # task order: deterministic whatever the scheduling
+    stats = dict(max_N=0, max_Nc=0, max_M=0, max_nodes=0, max_generate_expr_calls=0, max_erasure_examined=0,
+                 max_visits_per_node=0, erased=0, injected=0, all_stages=0, cpu_s=0.0, max_cpu_s=0.0, by_depth={})
+    for _, t, rec in results:
         if rec.get('harness_error'):
             harness_errors.append(rec['key'] + ': ' + rec['harness_error'])
             continue
         md = t.get('max_depth', DEFAULT_DEPTH)
-        stats['max_N'] = max(stats['max_N'], rec['N'])
-        stats['max_M'] = max(stats['max_M'], rec['M'])
-        stats['max_nodes'] = max(stats['max_nodes'], rec['nodes'])
-        stats['max_generate_expr_calls'] = max(stats['max_generate_expr_calls'], rec.get('generate_expr_calls', 0))
-        stats['max_erasure_calls'] = max(stats['max_erasure_calls'], rec.get('erasure_max_examined', 0))
+        for k in ('N', 'Nc', 'M', 'nodes'):
+            stats['max_' + k] = max(stats['max_' + k], rec[k])
+        stats['max_generate_expr_calls'] = max(stats['max_generate_expr_calls'], rec['steps'].get(STAGES[0], 0))
+        stats['max_erasure_examined'] = max(stats['max_erasure_examined'], rec.get('erasure_max_examined', 0))
         stats['erased'] += bool(rec.get('erased'))
         stats['injected'] += bool(rec.get('injected'))
+        stats['all_stages'] += len(rec['stage_done']) == len(STAGES)
+        stats['cpu_s'] = round(stats['cpu_s'] + rec['cpu_s'], 1)
         stats['max_cpu_s'] = max(stats['max_cpu_s'], rec['cpu_s'])
-        for st, n in rec.get('steps', {}).items():
+        for st, n in rec['steps'].items():
             if st != STAGES[0] and rec['nodes']:
-                stats['max_visits_per_node'] = max(stats.get('max_visits_per_node', 0), round(n / rec['nodes'], 1))
-        d = stats['by_depth'].setdefault(str(md), dict(inputs=0, max_N=0, f=f_nesting(md), max_M=0, g=g_compound(md)))
+                stats['max_visits_per_node'] = max(stats['max_visits_per_node'], round(n / rec['nodes'], 1))
+        d = stats['by_depth'].setdefault(str(md), dict(inputs=0, max_N=0, f=f_nesting(md), max_Nc=0, h=h_charged(md),
+                                                       max_M=0, g=g_compound(md)))
         d['inputs'] += 1
-        d['max_N'] = max(d['max_N'], rec['N'])
-        d['max_M'] = max(d['max_M'], rec['M'])
+        for k in ('N', 'Nc', 'M'):
+            d['max_' + k] = max(d['max_' + k], rec[k])
         if len(rec['stage_done']) == len(STAGES) and rec['nodes'] >= 50 and rec['N'] >= 2:
             nontrivial.add((rec['key'], rec.get('text_sha')))
         if len(samples) < 3 and len(rec['stage_done']) == len(STAGES):
-            samples.append(dict(input=rec['key'], nodes=rec['nodes'], N=rec['N'], M=rec['M'],
-                                generate_expr_calls=rec.get('generate_expr_calls'), erased=rec.get('erased'),
-                                injected=rec.get('injected'), text_sha=rec.get('text_sha')))
+            samples.append(dict(input=rec['key'], nodes=rec['nodes'], N=rec['N'], Nc=rec['Nc'], M=rec['M'],
+                                steps=rec['steps'], erased=rec.get('erased'), injected=rec.get('injected'),
+                                text_sha=rec.get('text_sha')))
         for kind, detail in rec['findings']:
             if kind in kinds:
                 continue
@@ -530,22 +559,27 @@ def run(tier, seed, stop_first=False, workers=None):
             v.update({k: x for k, x in detail.items() if k != 'function'})
             violations.append(v)
     out = dict(
-        evaluations=len(results) * len(STAGES),
+        evaluations=sum(len(rec['stage_done']) + bool(rec['findings']) for _, _, rec in results),
         inputs=len(results),
         distinct_nontrivial=len(nontrivial),
-        rule=('%d inputs (language x seed x switches x depth limit; fixed list + VERIF_SEED extension) each through the '
-              '6 stages generate, translate, TypeErasure, translate, TypeOverwriting, translate of the real code with '
-              'cfg applied after import as src/args.py does; checked per input: no exception in any stage (kind = type '
-              '@ innermost repository frame; interpreter recursion limit %d untouched), step budgets (generate_expr calls '
-              '<= %d; ASTVisitor.visit calls per later stage <= %d * nodes + 10000; last-resort alarm %d s user CPU), TypeErasure '
-              'examines <= candidates + max_combinations + 1 combinations per function, expression nesting '
-              'N <= f(d) = 2d+6 and compound nesting M <= g(d) = max(0, d-2) for depth limit d (derivation in '
-              'specs/pipeline_ref.py: depth counter starts at 1, +1 per declaration, >= +1 per nested expression '
-              'except receivers / array elements / assignment right-hand sides, compound generators only below d, '
-              'gen_new cut at 2d). An input is non-trivial if all 6 stages ran, the program has >= 50 AST nodes and '
-              'N >= 2; distinct by input key and text of the three translations. Not checkable in this domain: '
-              '"for every seed" (finite list), absolute termination (budget only), the visitor timeout (it only sets '
-              'a flag after the visitor has returned; exercised with timeout=0)'
+        rule=('%d inputs (language x seed x option switches x depth limit d; fixed list + VERIF_SEED extension), each '
+              'through the 6 stages generate, translate, TypeErasure, translate, TypeOverwriting, translate of the '
+              'real code (cfg set after import, as src/args.py does); an evaluation is one stage run. Checked per '
+              'input: no exception in any stage (kind = type @ innermost repository frame; interpreter recursion limit '
+              '%d untouched); step budgets (generate_expr calls <= %d; ASTVisitor.visit calls per later stage <= '
+              '%d*nodes + 10000; last-resort alarm %d s user CPU); TypeErasure examines <= candidates + '
+              'max_combinations + 1 combinations per function; expression nesting of the generated program: '
+              'Nc <= h(d) = max(2d+1, d+3) (Expr nodes on an AST path outside the positions the generator fills '
+              'without advancing its depth counter: call / function-reference receivers, array elements, assignment '
+              'right-hand sides, `is` tests), N <= f(d) = 2*h(d) (all Expr nodes on a path; one uncharged node per '
+              'charged level), M <= g(d) = max(0, d-2) (compound nodes: conditional, is, field access, call, '
+              'operators; not counting receivers and statement-position calls). Derivation (specs/pipeline_ref.py): '
+              'counter is 1 at top level, +1 per declaration, >= +1 per nested expression, compound generators only '
+              'while counter < d, gen_new emits bottom constants beyond 2d, a lambda adds one level. An input is '
+              'non-trivial if all 6 stages ran, the program has >= 50 AST nodes and N >= 2; distinct by input key and '
+              'text of the three translations. Not checkable in this domain: "for every seed" (finite list), '
+              'termination (budgets only), the visitor timeout (it only sets a flag that is read after the visitor '
+              'has returned; exercised with timeout=0 for exceptions only)'
               % (len(results), sys.getrecursionlimit(), GEN_STEP_CAP, VISIT_FACTOR, CPU_ALARM)),
         samples=samples, stats=stats, violations=violations, exhaustive=False,
         wall_s=round(time.time() - t0, 1), workers=workers)
@@ -567,8 +601,9 @@ def replay(fi, verbose=True):
                                           {a: b for a, b in d.items() if a != 'function'}))
         if not rec['findings']:
             md = t.get('max_depth', DEFAULT_DEPTH)
-            print('input %s: all 6 stages ran without exception and within budget, N=%d (<= %d), M=%d (<= %d)'
-                  % (rec['key'], rec['N'], f_nesting(md), rec['M'], g_compound(md)))
+            print('input %s: all 6 stages ran without exception and within budget, N=%d (<= %d), Nc=%d (<= %d), '
+                  'M=%d (<= %d)' % (rec['key'], rec['N'], f_nesting(md), rec['Nc'], h_charged(md), rec['M'],
+                                    g_compound(md)))
     return not rec['findings']
 
 
